@@ -156,6 +156,18 @@ def main(argv=None):
   ap.add_argument("--out")
   args = ap.parse_args(argv)
   os.environ.setdefault("PYTHONHASHSEED", "0")
+  # watchdog: a check that does not come back is a harness problem (exit 2), never a verdict
+  import threading
+  limit = float(os.environ.get("VERIF_WATCHDOG_S", "2700" if args.tier == "quick" else "28000"))
+
+  def give_up():
+    sys.stdout.write("HARNESS-ERROR: watchdog: %s %s still running after %.0f s (exit 2)\n" % (
+      args.pid, args.tier, limit))
+    sys.stdout.flush()
+    os._exit(2)
+  wd = threading.Timer(limit, give_up)
+  wd.daemon = True
+  wd.start()
   seed = common.seed_value()
   timer = common.Timer()
   common.use_repo()
